@@ -91,8 +91,8 @@ PROPS = {
     },
     "C15": {
         "pkg": "core", "level": "exploration",
-        "quick": {"stages": [st("^TestC15Linearizable", 500), st("^TestC15Stress", 60), st("^TestC15ReadYourWrites", 30), st("^TestC15HandlerSessions", 20), st("^TestC15", 25, race=True)]},
-        "thorough": {"stages": [st("^TestC15Linearizable", 8000, shards=8, timeout=3000), st("^TestC15Stress", 600, shards=3, timeout=3000), st("^TestC15ReadYourWrites", 400, shards=2, timeout=3000), st("^TestC15HandlerSessions", 300, shards=1, timeout=3000), st("^TestC15", 300, shards=4, race=True, timeout=3000)]},
+        "quick": {"stages": [st("^TestC15Linearizable", 500), st("^TestC15Stress", 60), st("^TestC15ReadYourWrites", 30), st("^TestC15HandlerSessions", 20), st("^TestC15", 25, race=True), st("^TestC15HandlerSessionsMixed", 40, race=True)]},
+        "thorough": {"stages": [st("^TestC15Linearizable", 8000, shards=8, timeout=3000), st("^TestC15Stress", 600, shards=3, timeout=3000), st("^TestC15ReadYourWrites", 400, shards=2, timeout=3000), st("^TestC15HandlerSessions", 300, shards=1, timeout=3000), st("^TestC15", 300, shards=4, race=True, timeout=3000), st("^TestC15HandlerSessionsMixed", 600, shards=3, race=True, timeout=3000)]},
     },
     "C10": {
         "pkg": "core", "level": "exploration",
